@@ -76,6 +76,11 @@ class DefaultList(Generic[T]):
     def __iter__(self) -> Iterator[T]:
         return iter(self._list)
 
+    def __eq__(self, other: object) -> bool:
+        if not isinstance(other, DefaultList):
+            return NotImplemented
+        return self.__dict__ == other.__dict__
+
     def __str__(self) -> str:
         return str(self._list)
 
@@ -183,6 +188,11 @@ class Function:
         """
         return {i: v for i, v in enumerate(self._value) if v != 0}
 
+    def __eq__(self, other: object) -> bool:
+        if not isinstance(other, Function):
+            return NotImplemented
+        return self.__dict__ == other.__dict__
+
     def __str__(self) -> str:
         parts = (
             f"{i} -> {v if v is not None else '∞'}" for i, v in enumerate(self._value)
@@ -201,6 +211,11 @@ class TableMethod:
         self._processing_queue: Deque[int] = Deque()
         self._current_gap: Tuple[int, int] = (1, 1)
         self._rule_holding_extra_terms: Set[int] = set()
+
+    def __eq__(self, other: object) -> bool:
+        if not isinstance(other, TableMethod):
+            return NotImplemented
+        return self.__dict__ == other.__dict__
 
     @property
     def function(self) -> Dict[int, Optional[int]]:
@@ -637,6 +652,16 @@ class RuleDBForest(RuleDBAbstract):
         self.table_method = TableMethod()
         self._already_empty: Set[int] = set()
         self._rule_cache = tuple(rule_cache)
+
+    def __eq__(self, other: object) -> bool:
+        """Check if all stored information is the same."""
+        if not isinstance(other, RuleDBForest):
+            return NotImplemented
+        # the searcher is a back-reference, comparing it would not terminate
+        ignored = ("_searcher",)
+        return {k: v for k, v in self.__dict__.items() if k not in ignored} == {
+            k: v for k, v in other.__dict__.items() if k not in ignored
+        }
 
     # Implementation of RuleDBAbstract
 
